@@ -89,6 +89,28 @@ def mixNoAssertCheck : Bool :=
 
 theorem mixNoAssertCheck_true : mixNoAssertCheck = true := by decide +kernel
 
+/-! ### the command-line path: ident / noident split -/
+
+/-- the database `[exD1, exD2]` (below) covers the query hashes 1..15; `commands.gather` starts gather from those
+(`ident_mh`) and keeps 16..20 aside (`noident_mh`); the two rounds report `orig_query_len` 20 = the whole
+query, unique overlaps 11 and 4, and `remaining_bp` counts the never-identified hashes -/
+def cliRunCheck (q : LS) (db : List (Sig LS)) : Bool :=
+  match counterGather lsOps db q 0 with
+  | .ok c =>
+    (match cliSplit lsOps q [c] with
+     | .ok (ident, noident) =>
+       decide (ident.hs = (List.range 15).map (· + 1)) && decide (noident.hs = (List.range 5).map (· + 16)) &&
+       (match GD.init lsOps q [.cg c] 0 false (some noident) (some ident) with
+        | .ok g =>
+          (match g.run lsOps ratOps 10 with
+           | .ok (gf, rs) =>
+             decide (rs.map (fun r => (r.name, r.isectCur.length, r.queryNHashes, r.remainingBp))
+               = [(2, 11, 20, 18), (1, 4, 20, 10)]) && decide (gf.query.hs = [])
+           | .error _ => false)
+        | .error _ => false)
+     | .error _ => false)
+  | .error _ => false
+
 /-! ### non-vacuity: a three-round run with abundances, database at the query's scaled -/
 
 def exQuery : LS := ⟨2, (List.range 20).map (· + 1), some ((List.range 20).map (fun i => i % 3 + 1))⟩
@@ -113,6 +135,8 @@ def exRunCheck : Bool :=
   | .error _ => false
 
 theorem exRunCheck_true : exRunCheck = true := by decide +kernel
+
+theorem cliRunCheck_true : cliRunCheck exQuery [exD1, exD2] = true := by decide +kernel
 
 theorem range_succ_sorted (n k : Nat) : Sorted ((List.range n).map (· + k)) := by
   unfold Sorted
